@@ -428,3 +428,18 @@ class ShardedFileExists(Contract):
         name, exists = cfg
         c.prove(f"refused-with-ValueError-only-for-escaping-names:{type(exc).__name__}", isinstance(exc, ValueError) and escapes(name), kind="exc")
         c.prove("refused-without-touching-the-file-system", len(get_fs().log) == 0, kind="exc")
+
+
+# ---- native replay adapters (scenario sweeps on the real code, contracts/_native.py)
+
+from . import _native  # noqa: E402
+
+
+def _use(fn):
+    return lambda self, model, cfg, ob_name: fn()
+
+
+for _cls in (StoreChunk, FetchChunk, StoreFile, FetchFile, FileExists, CrossConfigHistory):
+    _cls.replay = _use(_native.files_sweep)
+for _cls in (ShardedStoreFile, ShardedFetchFile, ShardedFileExists):
+    _cls.replay = _use(_native.confinement_sweep)
